@@ -130,6 +130,9 @@ pub fn run_async(sh: &Shared, mut tasks: Vec<Option<Task>>) -> Vec<Option<Caught
     let wakers: Vec<Waker> = flags.iter().map(|f| Waker::from(f.clone())).collect();
     let mut caught: Vec<Option<Caught>> = vec![None; n];
     let mut polls = vec![0u64; n];
+    // polls of each task since the run was aborted: a task that keeps returning Pending without
+    // touching the pipe (where the abort would unwind it) is dropped
+    let mut abort_polls = vec![0u32; n];
     let mut steps: u64 = 0;
     let mut last = usize::MAX;
     loop {
@@ -247,6 +250,15 @@ pub fn run_async(sh: &Shared, mut tasks: Vec<Option<Task>>) -> Vec<Option<Caught
         if steps > STEP_CAP && !w.abort {
             w.violate("", "T1-termination", "hang:step-cap", "executor", format!("run exceeded {} polls", STEP_CAP));
             w.abort = true;
+        }
+        if w.abort {
+            abort_polls[pick] += 1;
+            if abort_polls[pick] > 3 {
+                drop(w);
+                tasks[pick] = None;
+                lock(sh).ev(pick as u8, Op::Done, Out::Pending, 0, 0);
+                continue;
+            }
         }
         drop(w);
         flags[pick].0.store(false, Ordering::SeqCst);
